@@ -195,6 +195,15 @@ def eval_sized(test, sizes):
 
     e = R().visit(ast.parse(ast.unparse(test), mode="eval").body)
     ast.fix_missing_locations(e)
+    if isinstance(e, ast.BoolOp):
+        # three-valued and / or: `False and <unknown>` is False, `True or <unknown>` is True
+        vals = [eval_sized(v, {}) for v in e.values]
+        if isinstance(e.op, ast.And):
+            return False if False in vals else (True if all(v is True for v in vals) else None)
+        return True if True in vals else (False if all(v is False for v in vals) else None)
+    if isinstance(e, ast.UnaryOp) and isinstance(e.op, ast.Not):
+        v = eval_sized(e.operand, {})
+        return None if v is None else not v
     safe = {"min": min, "max": max, "abs": abs, "sum": sum, "any": any, "all": all, "bool": bool, "int": int}
     callee_names = {id(x.func) for x in ast.walk(e) if isinstance(x, ast.Call) and isinstance(x.func, ast.Name) and x.func.id in safe}
     for x in ast.walk(e):
